@@ -256,4 +256,29 @@ theorem plan_connect_inv (cfg : Cfg) (a : Args) (s : Script) (c : Connect) (h : 
           obtain ⟨tf, hc, hcase⟩ := afterTicket_ok_inv cfg r s.second _ ku key t c h
           exact ⟨r, ku, key, t, tf, rfl, hres, hk, afterTicket_key .., hd, hc, afterTicket_calls .., hcase⟩
 
+/-! ### sequences of logins through one client object -/
+
+theorem login_client_unchanged (c : Client) (st : Step) : (c.login st).1 = c := rfl
+
+theorem session_eq_map (c : Client) (steps : List Step) :
+    session c steps = steps.map (fun st => plan c.cfg st.args st.script) := by
+  induction steps with
+  | nil => rfl
+  | cons st rest ih => simp [session, Client.login, ih]
+
+theorem session_length (c : Client) (steps : List Step) : (session c steps).length = steps.length := by
+  simp [session_eq_map]
+
+theorem session_getElem? (c : Client) (steps : List Step) (k : Nat) :
+    (session c steps)[k]? = steps[k]?.map (fun st => plan c.cfg st.args st.script) := by
+  simp [session_eq_map]
+
+theorem session_append (c : Client) (pre post : List Step) :
+    session c (pre ++ post) = session c pre ++ session c post := by
+  simp [session_eq_map]
+
+theorem session_after_prefix (c : Client) (pre : List Step) (st : Step) :
+    (session c (pre ++ [st]))[pre.length]? = some (plan c.cfg st.args st.script) := by
+  simp [session_eq_map]
+
 end Nx.Backend
